@@ -55,3 +55,13 @@ impl<R: AsyncRead + Unpin, TSpec> TagIteratorAsync<R, TSpec>
         self.iterator.last_emitted_tag_offset()
     }
 }
+#[cfg(feature = "verif-hooks")]
+impl<R: AsyncRead + Unpin, TSpec> TagIteratorAsync<R, TSpec>
+    where
+        TSpec: EbmlSpecification<TSpec> + EbmlTag<TSpec> + Clone
+{
+    /// Read-only view of the inner blocking iterator (verification hook, add-only).
+    pub fn verif_inner(&self) -> &TagIterator<Cursor<Vec<u8>>, TSpec> {
+        &self.iterator
+    }
+}
